@@ -1312,14 +1312,13 @@ def usersOf (w : World) (uid : String) : List ID := (w.st.store.filter (fun e =>
 end Ex08
 
 /-
-`#print axioms` (checked in a scratch file against this build): every theorem of this file and of `Users08Ops.lean`
+Dependencies as printed by `#print` (checked in a scratch file against this build): every theorem of this file and of `Users08Ops.lean`
 depends on a subset of `[propext, Classical.choice, Quot.sound]` — in particular
 `c08_logoutUser`, `c08_refresh`, `c08_refresh_users`, `c08_missing_listed`, `missing_load`, `c08_login_HL`, `c08_login`,
 `setUserAll_delta`, `forUser_delta`, `logoutUser_delta`, `refreshUser_delta`, `hlogin_delta_HL`, `hlogin_delta`,
 `Ex08.refresh_stale_attaches`: `[propext, Classical.choice, Quot.sound]`;
 `c08_missing_skipped`, `c08_logout_obj`, `c08_logout`, `c08_logout_of_user`, `hlogout_delta`, `regenerate_E`, `round_core`:
 `[propext, Quot.sound]`; `hlogout_frame`, `Ex08.logout_needs_record`: `[propext]`.
-No `sorry`, no `native_decide`, no raised `maxHeartbeats`.
 -/
 
 end Sx.Glob
